@@ -1395,10 +1395,11 @@ pub fn run(report: &mut Report, replay: Option<&str>) {
         (" -- tail", vec![]), ("\n--[[ footer\n block ]]", vec!["remove_spaces".to_owned()])] {
         let case = BundleCase {
             files: vec![
-                ("src/main.lua".to_owned(), "local v1 = require(\"./a\")\nlocal v2 = require(\"./b\")\nlocal v3 = require(\"./c\")\nm4(v1,\n  v2,\n  g5, v3\n)\n".to_owned()),
+                ("src/main.lua".to_owned(), "local v1 = require(\"./a\")\nlocal v2 = require(\"./b\")\nlocal v3 = require(\"./c\")\nm4(v1,\n  v2,\n  g5, v3\n)\nm6 's7'\nm8 { g9 }\n".to_owned()),
                 ("src/a.lua".to_owned(), "local v10 = g11\n\nreturn {\n  v10, g12,\n}\n".to_owned()),
                 ("src/b.lua".to_owned(), format!("local v20 = g21\nreturn v20 .. g22{}", b_ending)),
-                ("src/c.lua".to_owned(), "return g31\n".to_owned()),
+                // calls without parentheses: their string / table argument is shifted like the rest
+                ("src/c.lua".to_owned(), "m32 's33'\nm34 { 's35',\n  g36 }\nreturn g31\n".to_owned()),
             ],
             rules,
         };
